@@ -7,7 +7,7 @@ from lib.coqterm import cbool, clist, cnat, cN, copt
 
 ID = "C53"
 QUICK_N = 700
-THOROUGH_N = 12000
+THOROUGH_N = 3500
 SHARD = 150
 COQ_PRELUDE = "From MV Require Import Model.FlowBackup Model.ClientPlayback.\n"
 RULE = ("(a) 128 check() decision-table cases (all values of live, is-inflight, intercepted, HTTP, request, content, websocket on real "
